@@ -204,6 +204,17 @@ fn c_expr(it: &mut Interner, e: &Expression) -> String {
         Expression::Variable(v) => format!("(EVar {})", qv::fnv1a(v) % 1000),
     }
 }
+/// known-finding class `tiny-imaginary-accepted`: a number literal that is not real but passes the
+/// tolerance test of should_be_real (0 < |im| <= f64::EPSILON, or NaN)
+fn has_inexact(e: &Expression) -> bool {
+    match e {
+        Expression::Number(c) => c.im.is_nan() || (c.im != 0.0 && c.im.abs() <= f64::EPSILON),
+        Expression::FunctionCall(f) => has_inexact(&f.expression),
+        Expression::Prefix(p) => has_inexact(&p.expression),
+        Expression::Infix(i) => has_inexact(&i.left) || has_inexact(&i.right),
+        _ => false,
+    }
+}
 fn expr_depth(e: &Expression) -> usize {
     match e {
         Expression::FunctionCall(f) => 1 + expr_depth(&f.expression),
@@ -629,7 +640,15 @@ fn run_text(run: &mut Run, ctx: &Ctx, rng: &mut Rng, text: &str, gen: Option<(&G
         println!("whole = {whole:?}\nsingles = {singles:?}\nperm = {perm:?} -> {permv:?}\ndoubled = {dupv:?}\nrenamed = {renv:?}");
         println!("coq case: {coq}");
     }
-    run.case(coq, &desc, nontrivial, None);
+    let in_known_class = body.iter().any(|i| match i {
+        Instruction::SetFrequency(x) => has_inexact(&x.frequency),
+        Instruction::SetPhase(x) => has_inexact(&x.phase),
+        Instruction::SetScale(x) => has_inexact(&x.scale),
+        Instruction::ShiftFrequency(x) => has_inexact(&x.frequency),
+        Instruction::ShiftPhase(x) => has_inexact(&x.phase),
+        _ => false,
+    });
+    run.case(coq, &desc, nontrivial, if in_known_class { Some("tiny-imaginary-accepted") } else { None });
 }
 
 // ---------------------------------------------------------------------------------------------
